@@ -7,3 +7,8 @@ import Pyrealb.Props.C18
 #print axioms Pyrealb.C18.expandConj_complete_partial
 #print axioms Pyrealb.C18.expandConj_complete_refuted
 #print axioms Pyrealb.C18.intr_veto_holds
+#print axioms Pyrealb.C18.expandDecl_sound_holds
+#print axioms Pyrealb.C18.distinct_rows_tbl_holds
+#print axioms Pyrealb.C18.distinct_rows_all_holds
+#print axioms Pyrealb.C18.expandDecl_complete_holds
+#print axioms Pyrealb.C18.closed_class_tbl_holds
